@@ -1,7 +1,7 @@
 """C16 - Alias elimination merges variable metadata soundly.
 
 Spec: spec/Simplify.tla, metadata part (family "meta").  An entry = one alias class: what the chain hangs on
-(state / algebraic / input / derivative), 1..3 alias links with sign, spelling and attachment point, and one
+(state / algebraic / input / derivative), 1..4 alias links with sign, spelling and attachment point (the target or any earlier alias), written in a drawn order, and one
 attribute record (min, max, nominal, fixed, start set?, start) per variable from small integer domains.  The
 entries are drawn here from the seed (index vectors only); TLC derives the model, runs the pipeline with
 detect_aliases (three option sets: plain MX, SX round trip, SX-per-equation detection), explores every
@@ -25,7 +25,7 @@ META = {
     "ready": True,
     "category": "model_checking",
     "technique": "TLA+ spec (Simplify.tla, metadata part): invariant MetadataMerged (operational merge of detect_aliases = declarative Merged(c)) model-checked by TLC over alias classes with attribute vectors; every class replayed on the real generate()+simplify(detect_aliases) and the surviving variable's attributes and metadata-function row compared with the spec's merged record",
-    "text": "TLC derives one model per drawn alias class (state/algebraic/input/derivative target, 1-3 positive or negative alias links in five spellings, bounds in {-inf,-3..4,+inf}, nominal 0..3, fixed, start unset or in -2..2), runs the specified pipeline for three option sets and all admissible detection outcomes, checks that the pairwise merge of the code equals the declarative merge, and prints every final relation with the merged attributes; the real code is run on the same programs and the canonical variable's min, max, nominal, fixed, start and metadata-function row must equal the record of the spec outcome with the same survivor.",
+    "text": "TLC derives one model per drawn alias class (state/algebraic/input/derivative target, 1-4 positive or negative alias links in six spellings attached to the target or any earlier alias, equations in every order, bounds in {-inf,-3..4,+inf}, nominal 0..3, fixed, start unset or in -2..2), runs the specified pipeline for three option sets and all admissible detection outcomes, checks that the pairwise merge of the code equals the declarative merge, and prints every final relation with the merged attributes; the real code is run on the same programs and the canonical variable's min, max, nominal, fixed, start and metadata-function row must equal the record of the spec outcome with the same survivor.",
     "note": "Trusted: TLC, the IR pretty-printer, reading attribute values (floats / DM / constant MX) and the metadata function at the parameter-free point. Attributes are integer literals (parameter-dependent attribute expressions are C13's subject). Which member survives and which explicit alias start is taken are not prescribed (set of admissible answers).",
     "design_ref": "DESIGN.md section 6, C16; Appendix C.6",
 }
@@ -50,23 +50,29 @@ def draw_attr(rng):
 
 
 def entries(rng, n):
+    """alias classes: target kind x chain length 1..4 x sign pattern are cycled through; the attachment point of
+    every link (the target or ANY earlier alias: chains, stars, trees), its spelling and the ORDER in which the alias
+    equations are written (a permutation: it decides which side of alias_relation.add a grown group is on) are drawn.
+    Spellings 1, 2, 9 are matched by the fast path (two symvar orders), 3, 4, 6 mostly by substitute-and-test."""
     out = []
     shapes = []
-    for tgt in "SAID":
-        for ln in (1, 2, 3):
+    for ln in (1, 2, 3, 4):
+        for tgt in "SAID":
             for signs in range(2 ** ln):
                 shapes.append((tgt, ln, signs))
     k = 0
     while len(out) < n:
-        tgt, ln, signs = shapes[k % len(shapes)]
+        tgt, ln, signs = shapes[(k * 7) % len(shapes)]
         k += 1
         links = []
+        fast_only = rng.random() < 0.6
         for i in range(ln):
-            f = rng.choice([1, 1, 2, 3, 4, 6]) if k > len(shapes) else 1 + (k + i) % 3
-            links.append({"s": 1 if (signs >> i) & 1 else -1, "f": f,
-                          "t": "prev" if i > 0 and rng.random() < 0.7 else "t"})
+            f = rng.choice([1, 2, 9]) if fast_only else rng.choice([1, 1, 2, 9, 9, 3, 4, 6])
+            links.append({"s": 1 if (signs >> i) & 1 else -1, "f": f, "to": rng.randint(0, i) if rng.random() < 0.8 else 0})
+        perm = list(range(1, ln + 1))
+        rng.shuffle(perm)
         nattr = ln + (0 if tgt == "D" else 1)
-        out.append({"tgt": tgt, "links": links, "attrs": [draw_attr(rng) for _ in range(nattr)]})
+        out.append({"tgt": tgt, "links": links, "perm": perm, "attrs": [draw_attr(rng) for _ in range(nattr)]})
     return out
 
 
@@ -122,7 +128,29 @@ def judge(prog, opts, r, fins):
         return [], "reported-failure:" + r["failure"]["exception_type"]
     attrs = {k: v for k, v in r["attrs"].items() if not k.startswith("__")}
     oblocks = norm_blocks(r["blocks"])
-    cands = [f for f in fins if norm_blocks(f["fin"]["rel"]) == oblocks and set(f["attr"] or {}) == set(attrs)]
+    e = prog["entry"]
+    tags = sorted({"tgt:" + e["tgt"], "len:%d" % len(e["links"])} |
+                  {"ali:neg" if l["s"] < 0 else "ali:pos" for l in e["links"]})
+    same_rel = [f for f in fins if norm_blocks(f["fin"]["rel"]) == oblocks]
+    cands = [f for f in same_rel if set(f["attr"] or {}) == set(attrs)]
+    if not same_rel and fins and len({norm_blocks(f["fin"]["rel"]) for f in fins}) == 1:
+        # every admissible outcome of the spec has the SAME alias classes (no equation of this entry is left to the
+        # substitute-and-test path), but the relation the code kept is a different one: the set of aliases whose
+        # metadata was merged into the kept variable is not the set of its aliases
+        want = sorted(sorted(map(list, b)) for b in norm_blocks(fins[0]["fin"]["rel"]))
+        recs = [{"observable": "alias-class", "tags": tags, "exception_type": None,
+                 "detail": "aliases merged into the kept variable(s): observed classes %s with kept %s; the only admissible "
+                           "classes are %s | entry=%s opts=%s" % (json.dumps(r["blocks"]), json.dumps(attrs), json.dumps(want),
+                                                            json.dumps(e), opts)}]
+        # ... and the metadata of a kept variable that the spec also keeps must still be Merged over its true class
+        for f in fins:
+            if set(f["attr"] or {}) <= set(attrs):
+                bad = sorted({a for c in f["attr"] if not attrs[c].get("missing") for a in compare(f["attr"][c], attrs[c])})
+                recs += [{"observable": a, "tags": tags, "exception_type": None,
+                          "detail": "attribute %s of the kept variable: observed %s, Merged over the true class = %s | entry=%s opts=%s" % (
+                              a, json.dumps(attrs), json.dumps(f["attr"]), json.dumps(e), opts)} for a in bad]
+                break
+        return recs, None
     if not cands:
         return [], "partition-not-predicted"
     best = None
@@ -138,9 +166,6 @@ def judge(prog, opts, r, fins):
         if not bad:
             return [], None
     bad, f = best
-    e = prog["entry"]
-    tags = sorted({"tgt:" + e["tgt"], "len:%d" % len(e["links"])} |
-                  {"ali:neg" if l["s"] < 0 else "ali:pos" for l in e["links"]})
     recs = [{"observable": a, "tags": tags, "exception_type": None,
              "detail": "attribute %s of the kept variable: observed %s, Merged = %s | entry=%s opts=%s" % (
                  a, json.dumps(attrs), json.dumps(f["attr"]), json.dumps(e), opts)} for a in sorted(set(bad))]
@@ -195,6 +220,7 @@ def run(ctx):
                 ctx.note_drift(drift)
         else:
             tallies["compared"] = tallies.get("compared", 0) + 1
+            ctx.traces += 1           # one pipeline behaviour of the spec replayed on the code and matched
             e = prog["entry"]
             key = "%s/len%d/%s" % (e["tgt"], len(e["links"]), "neg" if any(l["s"] < 0 for l in e["links"]) else "pos")
             cover[key] = cover.get(key, 0) + 1
